@@ -316,7 +316,17 @@ class DictReader:
         """
         odml_sections = []
 
+        if not isinstance(section_list, (list, tuple)):
+            self.error("Invalid 'sections' entry: expected a list, got '%s'" %
+                       type(section_list).__name__)
+            return odml_sections
+
         for section in section_list:
+            if not isinstance(section, dict):
+                self.error("Invalid Section entry: expected a dictionary, got '%s'" %
+                           type(section).__name__)
+                continue
+
             sec_attrs = {}
             children_secs = []
             sec_props = []
@@ -363,7 +373,17 @@ class DictReader:
         """
         odml_props = []
 
+        if not isinstance(props_list, (list, tuple)):
+            self.error("Invalid 'properties' entry: expected a list, got '%s'" %
+                       type(props_list).__name__)
+            return odml_props
+
         for _property in props_list:
+            if not isinstance(_property, dict):
+                self.error("Invalid Property entry: expected a dictionary, got '%s'" %
+                           type(_property).__name__)
+                continue
+
             prop_attrs = {}
 
             for i in _property:
